@@ -8,6 +8,7 @@ import numpy as np
 from scipy import sparse
 
 from . import gen
+from .oracle import penalties as OP
 
 SOLVERS = ["AndersonCD", "GroupBCD", "MultiTaskBCD", "ProxNewton", "GroupProxNewton", "GramCD", "FISTA",
            "LBFGS", "PDCD_WS"]
@@ -260,9 +261,24 @@ def run_cell(c, seed, tol_frac=1e-5, budget=None):
         out["outcome"] = "solved"
         out["result_w"] = np.asarray(res[0], dtype=float).tolist()
         out["stop_crit"] = float(res[2])
+        out["tol"] = float(tol)
+        if c["s"] == "FISTA" and dfd is not None:
+            # FISTA is outside the strict certificate (its stopping value is known to lag by a bounded factor), but
+            # a run that claims convergence still has to be NEAR a stationary point: violation within 64 x the bound
+            try:
+                # (judged in the subdifferential metric: a fixed point of the prox-gradient map is a critical point
+                #  whatever the step, while the residual itself depends on FISTA's global step)
+                v = PB.violation(prob, np.asarray(res[0], dtype=float), "subdiff")[0]
+                out["fista_viol"] = float(v)
+                out["fista_bound"] = 64.0 * PB.vbound(tol, scale)
+            except Exception:  # noqa: BLE001
+                pass
     t = tr.trace(c["id"])
     t.update(descent=0, cert=int(c["s"] not in ("FISTA", "PDCD_WS") and dfd is not None or c["s"] == "GramCD"),
              critval=0, haswouter=int(c["s"] != "LBFGS"))
+    if c["s"] in ("ProxNewton", "GroupProxNewton") and c["ws"] == "fixpoint" and pend is not None \
+            and not OP.is_convex(pend):
+        t["cert"] = 0          # prox-Newton steps leave the well-posed range of a non-convex prox (see scen.build)
     if pend is not None and pend["kind"] == "SLOPE":
         t["cert"] = 0
     out["trace"] = t
